@@ -10,6 +10,7 @@ mod doc;
 mod c02;
 mod c06;
 mod maps;
+mod big;
 mod c01;
 mod c04;
 mod c19;
@@ -45,7 +46,7 @@ fn props() -> Vec<Prop> {
         Prop { id: "C02", run: c02::run, gen: c02::gen },
         Prop { id: "C06", run: c06::run, gen: c06::gen },
         Prop { id: "C01", run: c01::run, gen: c01::gen },
-        Prop { id: "C03", run: c01::run_c03, gen: c01::gen },
+        Prop { id: "C03", run: c01::run_c03, gen: c01::gen_c03 },
         Prop { id: "C04", run: c04::run, gen: c04::gen },
         Prop { id: "C07", run: c04::run_c07, gen: c04::gen_c07 },
         Prop { id: "C19", run: c19::run, gen: c19::gen },
